@@ -1,0 +1,119 @@
+//! Verification hooks. Compiled only with the cargo feature `verif-hooks`.
+//!
+//! Nothing in here changes the behaviour of the library: it provides a virtual clock that the
+//! UDP protocol reads instead of the wall clock, read-only snapshots of internal buffer sizes
+//! and connection status, and a public entry point to the input codec.
+
+use std::cell::Cell;
+use std::ops::Add;
+
+use instant::Duration;
+
+thread_local! {
+    static CLOCK_US: Cell<u64> = const { Cell::new(0) };
+}
+
+/// Sets the virtual clock of the calling thread (microseconds since an arbitrary origin).
+pub fn set_clock_us(us: u64) {
+    CLOCK_US.with(|c| c.set(us));
+}
+
+/// Reads the virtual clock of the calling thread in microseconds.
+pub fn clock_us() -> u64 {
+    CLOCK_US.with(Cell::get)
+}
+
+/// Milliseconds of the virtual clock; stands in for the wall-clock epoch time.
+pub(crate) fn epoch_ms() -> Option<u128> {
+    Some(u128::from(clock_us() / 1000))
+}
+
+/// Virtual replacement for `instant::Instant`, backed by the thread-local virtual clock.
+#[derive(Debug, Copy, Clone, PartialEq, Eq, PartialOrd, Ord)]
+pub struct Instant(u64);
+
+impl Instant {
+    /// The current reading of the virtual clock.
+    pub fn now() -> Self {
+        Self(clock_us())
+    }
+}
+
+impl Add<Duration> for Instant {
+    type Output = Instant;
+    fn add(self, rhs: Duration) -> Instant {
+        let us = u64::try_from(rhs.as_micros()).unwrap_or(u64::MAX);
+        Instant(self.0.saturating_add(us))
+    }
+}
+
+/// Sizes of the internal buffers of one UDP endpoint plus a few read-only state fields.
+#[derive(Debug, Clone, PartialEq, Eq, Default)]
+pub struct EndpointSnapshot {
+    /// 0 Initializing, 1 Synchronizing, 2 Running, 3 Disconnected, 4 Shutdown
+    pub state: u8,
+    /// unacknowledged inputs
+    pub pending_output: usize,
+    /// remembered received inputs (including the blank reference)
+    pub recv_inputs: usize,
+    /// checksum reports received and not yet compared
+    pub pending_checksums: usize,
+    /// messages queued and not yet handed to the socket
+    pub send_queue: usize,
+    /// endpoint events not yet drained by the session
+    pub event_queue: usize,
+    /// outstanding handshake nonces
+    pub sync_random_requests: usize,
+    /// newest input frame received
+    pub last_recv_frame: i32,
+    /// frame of the newest acknowledged output
+    pub last_acked_frame: i32,
+    /// the magic number this endpoint stamps on its packets
+    pub magic: u16,
+}
+
+/// Read-only view of a `P2PSession`.
+#[derive(Debug, Clone, PartialEq, Eq, Default)]
+pub struct P2PSnapshot<A> {
+    /// per player handle: (disconnected, last received frame)
+    pub connect_status: Vec<(bool, i32)>,
+    /// buffered user events
+    pub event_queue: usize,
+    /// frames of local input waiting to be handed to the endpoints
+    pub outgoing_local_inputs: usize,
+    /// stored local checksums
+    pub local_checksum_history: usize,
+    /// sync layer: last confirmed frame
+    pub last_confirmed_frame: i32,
+    /// sync layer: last saved frame
+    pub last_saved_frame: i32,
+    /// pending rollback due to a disconnect
+    pub disconnect_frame: i32,
+    /// next frame to broadcast to spectators
+    pub next_spectator_frame: i32,
+    /// (address, is_spectator, endpoint)
+    pub endpoints: Vec<(A, bool, EndpointSnapshot)>,
+}
+
+/// Read-only view of a `SpectatorSession`.
+#[derive(Debug, Clone, PartialEq, Eq, Default)]
+pub struct SpectatorSnapshot {
+    /// buffered user events
+    pub event_queue: usize,
+    /// newest frame received from the host
+    pub last_recv_frame: i32,
+    /// per player handle: (disconnected, last frame) as told by the host
+    pub host_connect_status: Vec<(bool, i32)>,
+    /// the endpoint talking to the host
+    pub host: EndpointSnapshot,
+}
+
+/// The input codec's encoder (`network::compression::encode`).
+pub fn codec_encode(reference: &[u8], inputs: &[Vec<u8>]) -> Vec<u8> {
+    crate::network::compression::encode(reference, inputs.iter())
+}
+
+/// The input codec's decoder (`network::compression::decode`); errors are stringified.
+pub fn codec_decode(reference: &[u8], data: &[u8]) -> Result<Vec<Vec<u8>>, String> {
+    crate::network::compression::decode(reference, data).map_err(|e| e.to_string())
+}
